@@ -44,6 +44,8 @@ COMMANDS = [("test",), ("set", "a", "2"), ("set", "z", '"s"'), ("set", "a", "{")
             # arguments reach the library exactly as given: blanks around a path or a value are part of it (the library refuses such
             # paths), and names are compared by code points (no Unicode normalisation)
             ("set", "a ", "2"), ("set", " a", "2"), ("rm", "a\n"), ("set", '"a" ', "2"), ("rm", "a\t"), ("set", "a", "2\u00a0"),
+            # a selector deeper than the let layers of the document (the `let` text has one layer)
+            ("rm", "@@v"), ("rm", "@@@v"), ("set", "@@v", "3"),
             ("set", '"e\u0301"', "1"), ("set", '"\u2126"', "1"), ("rm", '"e\u0301"')]
 
 
@@ -70,6 +72,16 @@ def library(cmd, text):
         if G.parse_cst(text).has_error:
             # a source with a syntax error is an error for every edit (tree-sitter's verdict, not the library's own flag)
             return ("", "nonzero")
+    if cmd and cmd[0] in ("set", "rm") and len(cmd) >= 2 and cmd[1].startswith("@@"):
+        # a selector with more `@` than the document has let layers addresses nothing (set may create only the innermost layer)
+        from bounded import readers as RD
+
+        try:
+            _e, _t, _layers = RD.read_document(text)
+            if _t is not None and len(cmd[1]) - len(cmd[1].lstrip("@")) > len(_layers):
+                return ("", "nonzero")
+        except Exception:
+            pass
     if cmd and cmd[0] == "set" and len(cmd) == 3:
         try:
             out = set_value(parse(text), cmd[1], cmd[2])
